@@ -14,6 +14,7 @@ from concurrent.futures import ThreadPoolExecutor
 
 ROOT = os.path.dirname(os.path.dirname(os.path.abspath(__file__)))
 CACHE = os.path.join(ROOT, ".cache")
+OUT = os.environ.get("DX_OUT", ROOT)   # evidence/ and replays/ go here (seedrun points it elsewhere for mutant runs)
 REPO = os.path.abspath(os.environ.get("DX_REPO", "/repo"))
 TAG = hashlib.sha1(REPO.encode()).hexdigest()[:8]
 GUARD = "frozenlib_derive_ex_verif"
@@ -568,7 +569,7 @@ class Report:
             if h in written:
                 continue
             written.add(h)
-            d = os.path.join(ROOT, "replays", self.pid)
+            d = os.path.join(OUT, "replays", self.pid)
             os.makedirs(d, exist_ok=True)
             path = os.path.join(d, h + ".json")
             with open(path, "w") as f:
@@ -600,8 +601,8 @@ class Report:
         ev = {"property_id": self.pid, "tier": self.tier, "seed": int(self.seed), "level": "exploration",
               "coverage": cov, "assumptions": self.assumptions, "wall_s": round(time.time() - self.t0, 2),
               "violations": len(new)}
-        os.makedirs(os.path.join(ROOT, "evidence"), exist_ok=True)
-        with open(os.path.join(ROOT, "evidence", f"{self.pid}.json"), "w") as f:
+        os.makedirs(os.path.join(OUT, "evidence"), exist_ok=True)
+        with open(os.path.join(OUT, "evidence", f"{self.pid}.json"), "w") as f:
             json.dump(ev, f, indent=1, default=str)
         verdict = {0: "held", 1: "VIOLATED", 2: "inconclusive"}[rc]
         print(f"[{self.pid}] {verdict}: evaluations={self.evaluations} distinct_nontrivial={dn} "
